@@ -32,7 +32,7 @@ def make_pair(rnd, big=False):
     elif kind == "dupes":
         cB = [d] + [cA[1], cA[1], cA[2], cA[1], corpus.text(rnd, sz())]
     kw = dict(comp_type=comp, hash_type=rnd.choice([0, 1]), chunk_hash_type=rnd.choice([1, 2, 3]), level=3)
-    A, _ = ref.build_file(cA, **kw); B, _ = ref.build_file(cB, **kw)
+    A, _ = ref.build_file(cA, pad=rnd.choice([0, 0, 0, 5]), **kw); B, _ = ref.build_file(cB, pad=rnd.choice([0, 0, 0, 1, 29]), **kw)
     return (None if kind == "noA" else A), B, kind
 
 
@@ -114,6 +114,7 @@ def run(tier):
         hB = ref.parse_header(B)
         if hB.hash_type != 1:
             B = ref.rebuild_from_parse(hB, B)            # (keep as is; zckdl handles SHA-1/SHA-256 overall types)
+            hB = ref.parse_header(B)
         tk, T = initial_target(rnd, A, B)
         if i < 6:      # make sure every kind of pre-existing target is tried by the shipped downloader
             tk = ["overlong", "equalB", "old", "empty", "partialB", "garbage"][i]
@@ -147,7 +148,7 @@ def run(tier):
         url = "http://127.0.0.1:%d/B.zck" % srv.server_address[1]
         st = zckdltier.run_zckdl(bd, cwd, url, src="A.zck" if A is not None else None, extra=extra)
         after = open(os.path.join(cwd, "B.zck"), "rb").read() if os.path.exists(os.path.join(cwd, "B.zck")) else b""
-        ev = zckdltier.tool_event(B, hB, A, T if tk != "empty" else b"", after, server.requested_ranges(srv.log, "B.zck"), st, full=norange)
+        ev = zckdltier.tool_event(B, hB, A, T if tk != "empty" else b"", after, server.requested_ranges(srv.log, "B.zck"), st, full=norange, must=(special != "norange-fail"))
         if special.startswith("ladder"):
             over = [e for e in srv.log if e["range"] and len(e["range"].split(",")) > mr]
             ck.extra.setdefault("zckdl_over_limit_requests_refused", []).append(len(over))
